@@ -49,6 +49,19 @@ MISSED_AT_FIRST = {
     'C14-5': 'missed: only exact built-in types; two subclasses of set and of ndarray (and masked arrays) added',
     'C15-5': 'missed: glob sub-schemas were declared by one process; family with 2-3 processes declaring nested sub-variables for the children of one glob store added',
     'C16-5': 'missed: ports_schema() always built a fresh dictionary; in 40% of the cases every instance now hands out one class-level schema object',
+    'C01-6': 'caught by C04 and C08 at first (in-place accumulate), not by C01: the ledger processes now may have two array accumulators declared with one default object',
+    'C02-6': 'caught by C10 at first, not by C02 (no processes entering at run time there): C02 now has a structural family that reuses C10\'s workload and is judged on starts_at_creation / schedule_contiguous',
+    'C04-6': 'caught by C10 at first (the run raised), not by C04: structural family (C10\'s workload, judged on layer_same_snapshot - a Lag step in one layer with the step whose output it reads - and no_exception)',
+    'C05-6': 'caught by C10 at first, not by C05: structural family (C10\'s workload judged on the step clauses)',
+    'C06-6': 'a stale-view change: caught by C07 at first; C05 now has a watcher step depending on the deleting step; C06\'s own workload has no structural updates (not caught there)',
+    'C07-6': 'missed: the static class only built engines from parts; all entry points incl. Engine(store=, initial_state=) added',
+    'C08-6': 'same change as C06-4/C01-4, written independently for C08; missed: every variable sat in a branch and had one port; the engine mode now has a root-level variable reached through two or three ports',
+    'C10-6': 'missed: a step director always sorted after the cells\' steps; its key may now be 0dir, so that its structural update is applied while the cells\' steps of the same layer have computed but not delivered theirs',
+    'C12-6': 'missed: no variable declared through a ** port under a branch-level _emit; branch deep added',
+    'C14-6': 'missed: set members were integers; sets of members that cannot be ordered against each other added',
+    'C15-6': 'missed: declarations never changed between two builds of one Composite; a schema override is merged between the second and a third build',
+    'C18-6': 'missed: None values were not generated; query family with None values',
+    'C19-6': 'missed: every process object was used in one engine; a second engine is now built with the same process objects',
     'C19-4': 'missed: one update() whose length is a multiple of the timestep; a third of the cases now make 2-4 update() calls that cut ticks short',
 }
 
